@@ -54,8 +54,8 @@ def bounded(tier, seed):
     o = dict(cleanups=True, smartquotes=True, ellipses=True)
     fill = [dict(o, width=w, semantic=False) for w in (88, 12, 0)]
     sem = [dict(o, width=w, semantic=True) for w in (88, 12)]
-    r1 = P.sweep(seed, n, [P.literal_spans_verbatim], option_sets=fill, budget_s=25 if tier == "quick" else 600)
-    r2 = P.sweep(seed + 31, n, [P.literal_spans_verbatim], option_sets=sem, hazards=False, budget_s=15 if tier == "quick" else 600)
+    r1 = P.sweep(seed, n, [P.literal_spans_verbatim, P.generated_code_verbatim], option_sets=fill, budget_s=25 if tier == "quick" else 600)
+    r2 = P.sweep(seed + 31, n, [P.literal_spans_verbatim, P.generated_code_verbatim], option_sets=sem, hazards=False, budget_s=15 if tier == "quick" else 600)
     fv = []
     fn = fence_function_sweep(tier, fv)
     return {"evaluations": r1["evaluations"] + r2["evaluations"] + fn, "distinct_nontrivial": r1["distinct_nontrivial"] + r2["distinct_nontrivial"],
@@ -64,7 +64,7 @@ def bounded(tier, seed):
                     "space, newline, letter, 4 spaces}; indented code blocks holding fence-like lines in 4 containers) "
                     "seeded documents x {88,12,0} fill / {88,12} semantic with cleanups, smart quotes and ellipses on: the sequence of "
                     "code blocks (info string, lines), code spans, inline HTML, link/image destinations and titles, autolinks and link "
-                    "definitions is identical before and after; distinct = distinct outputs",
+                    "definitions is identical before and after, and every top-level code block the generator wrote appears with exactly its lines (independent of the parser); distinct = distinct outputs",
             "exhaustive": False, "bound": "%d documents per mode" % n}
 
 
